@@ -2,7 +2,7 @@
    adjacent ("joint") input tokens.  The invariant is preserved unconditionally by every
    primitive, so every grammar function preserves it by a purely structural argument. *)
 From Coq Require Import NArith Arith List Bool Lia.
-From OQ3 Require Import gen.Kinds Model.Parser Model.Grammar Proofs.MarkerB.
+From OQ3 Require Import gen.Kinds gen.Ops Model.Parser Model.Grammar Proofs.TablesP Proofs.MarkerB.
 Import ListNotations.
 Local Open Scope nat_scope.
 
@@ -70,20 +70,20 @@ Proof. intros s H. apply (jw_push s EError (live s)); [exact I|exact H]. Qed.
 
 Lemma composite2_not_float k k1 k2 : assocN k composite2 = Some (k1, k2) -> k1 <> K_FLOAT_NUMBER.
 Proof.
-  unfold composite2. cbn [assocN].
+  unfold composite2, gen_composite2. cbn [assocN].
   repeat match goal with |- context [N.eqb k ?x] => destruct (N.eqb k x); [intros H; injection H as <- <-; vm_compute; discriminate|] end.
   discriminate.
 Qed.
 Lemma composite3_not_float k k1 k2 k3 :
   assocN k composite3 = Some (k1, k2, k3) -> k1 <> K_FLOAT_NUMBER /\ k2 <> K_FLOAT_NUMBER.
 Proof.
-  unfold composite3. cbn [assocN].
+  unfold composite3, gen_composite3. cbn [assocN].
   repeat match goal with |- context [N.eqb k ?x] => destruct (N.eqb k x); [intros H; injection H as <- <- <-; split; vm_compute; discriminate|] end.
   discriminate.
 Qed.
 Lemma nth_at_jc p k : nth_at_pure inp p 0 k = true -> jc (n_raw_of k) p.
 Proof.
-  unfold nth_at_pure, n_raw_of, jc, adj. rewrite !Nat.add_0_r.
+  rewrite n_raw_of_spec. unfold nth_at_pure, jc, adj. rewrite !Nat.add_0_r.
   destruct (assocN k composite2) as [[k1 k2]|] eqn:E2.
   - intros H. apply andb_true_iff in H. destruct H as [H Hj]. apply andb_true_iff in H. destruct H as [Hk1 _].
     right. left. split; [reflexivity|split; [exact Hj|]]. apply N.eqb_eq in Hk1. rewrite Hk1.
